@@ -906,6 +906,30 @@ impl Rig {
                 }
                 (blob, d, p)
             }
+            "trailing" | "truncated" => {
+                // a blob that authenticates under the dispute id but whose plaintext is not exactly one transaction:
+                // a serialized penalty followed by extra bytes / cut short. It must be treated as undecryptable.
+                use chacha20poly1305::aead::{Aead, NewAead};
+                use bitcoin::hashes::{sha256, Hash as _};
+                let d = spec["d"].as_i64().unwrap();
+                let p = spec["p"].as_i64().unwrap();
+                let dtx = rec.sym.tx(d);
+                let ptx = rec.sym.tx(p);
+                let mut plain = consensus::serialize(&ptx);
+                if spec["kind"] == "trailing" {
+                    plain.extend(vec![0x42u8; spec["extra"].as_u64().unwrap_or(7) as usize]);
+                } else {
+                    let cut = spec["cut"].as_u64().unwrap_or(3) as usize;
+                    plain.truncate(plain.len().saturating_sub(cut));
+                }
+                let k = sha256::Hash::hash(dtx.compute_txid().as_byte_array());
+                let cipher = chacha20poly1305::ChaCha20Poly1305::new(chacha20poly1305::Key::from_slice(k.as_byte_array()));
+                let blob = cipher.encrypt(&chacha20poly1305::Nonce::default(), plain.as_ref()).unwrap();
+                rec.sym.garbled += 1;
+                let g = rec.sym.garbled;
+                rec.sym.blobs.insert(blob.clone(), (-g, 0));
+                (blob, -g, 0)
+            }
             "garbled" => {
                 let n = spec["size"].as_u64().unwrap() as usize;
                 rec.sym.garbled += 1;
